@@ -28,6 +28,11 @@ def scenarios(ctx):
     out.append(("different-subs", gc.two_members(errs=e, topics={"t": 2, "u": 2}, stretch=True,
                                                  members=[dict(topics=["t", "u"], assignors=["roundrobin"]),
                                                           dict(topics=["u"], assignors=["roundrobin"], start=0.8)], **tail), B))
+    # three members, two of them (consecutive in the sorted cycle) not subscribed to the other topic
+    out.append(("three-different-subs", gc.two_members(errs=e, topics={"t": 2, "u": 2},
+                                                       members=[dict(topics=["t"], assignors=["roundrobin"]),
+                                                                dict(topics=["u"], assignors=["roundrobin"], start=0.3),
+                                                                dict(topics=["u"], assignors=["roundrobin"], start=0.6)], **tail), [{"r": 1}, {"k": 1}]))
     out.append(("assignor-pair", gc.two_members(errs=e, members=[dict(topics=["t"], assignors=["sticky", "range"]),
                                                                  dict(topics=["t"], assignors=["range", "sticky"], start=0.8)], **tail), Q))
     out.append(("pattern-new-topic", gc.two_members(errs=e, topics={"ta": 1}, new_topic_at=[1.2, "tb", 2], metadata_max_age_ms=500,
